@@ -450,10 +450,29 @@ def nest_track(F):
                 elif not cands:
                     r.undecided("parse_comp: how the bytes of a nested component are cut out of the input was not recognised")
                     continue
+            # which argument is the offset: the position of the parameter this function itself subtracts from parser ranges
+            # (handed to nested_bytes / used in `R.start - start`); parse_comp may take other usize parameters (a depth)
             st_arg = None
-            for a_ in c["args"][1:]:
-                if a_.get("ty") == "usize":
-                    st_arg = a_
+            off_hids = set()
+            for x in walk(fn["body"]):
+                if x.get("k") == "Call" and (x.get("callee") or "").endswith("nested_bytes") and len(x["args"]) >= 3:
+                    v_ = peel(x["args"][2])
+                    if v_.get("k") == "Path" and v_.get("res", {}).get("r") == "local":
+                        off_hids.add(v_["res"]["hid"])
+                if x.get("k") == "Binary" and x.get("op") == "-" and peel(x["a"]).get("k") == "Field" and peel(x["a"])["name"] in ("start", "end"):
+                    v_ = peel(x["b"])
+                    if v_.get("k") == "Path" and v_.get("res", {}).get("r") == "local":
+                        off_hids.add(v_["res"]["hid"])
+            off_idx = [i for i, pm in enumerate(fn.get("params") or []) if pm["pat"].get("hid") in off_hids]
+            if len(off_idx) == 1 and off_idx[0] < len(c["args"]):
+                st_arg = c["args"][off_idx[0]]
+            else:
+                us = [a_ for a_ in c["args"][1:] if a_.get("ty") == "usize"]
+                if len(us) == 1:
+                    st_arg = us[0]
+                else:
+                    r.undecided("parse_comp: which of its %d usize arguments is the absolute offset was not recognised" % len(us))
+                    continue
             ok = rng is not None and st_arg is not None and peel(st_arg).get("k") == "Field" and place_path(st_arg) == rng + ".start"
             r.ob(ok, {"nested start offset": place_path(st_arg) if st_arg is not None and peel(st_arg).get("k") == "Field" else "computed", "range": rng})
             if not ok:
